@@ -34,6 +34,8 @@ func main() {
 		genC12(w, *tier)
 	case "c09":
 		genC09(w, *tier)
+	case "c09reuse":
+		genC09Reuse(w, *tier) // c09reuse.go
 	case "c11":
 		genC11(w, *tier)
 	default:
